@@ -101,6 +101,9 @@ type hostileServer struct {
 }
 
 func (s *hostileServer) RoundTrip(r *http.Request) (*http.Response, error) {
+	if err := r.Context().Err(); err != nil {
+		return nil, err // like a real transport: a request whose context is over is not sent
+	}
 	s.mu.Lock()
 	i := s.n
 	s.n++
